@@ -108,8 +108,9 @@ Section ID.
       end
     end.
 
-  (* enough for every valid query (Proofs/IdTotalP.v): lines 2 and 7 shrink the node set, lines 3 and 4 grow the treatment set *)
-  Definition fuel_for (g : mg nat) : nat := let n := List.length (nodes g) in n * (n + 1) + n + 1.
+  (* enough for every valid query (Proofs/IdTotalP.v): lines 2 and 7 shrink the node set, lines 3 and 4 grow the treatment set;
+     the same budget is given to the transport recursion (Alg/Trso.v), which follows ID step by step when there is no source domain *)
+  Definition fuel_for (g : mg nat) : nat := let n := List.length (nodes g) in n * (n + 1) + 5 * n + 9.
 
   (* identify_outcomes(graph, treatments, outcomes): Identification with the joint over the graph's nodes *)
   Definition identify_outcomes (g : mg nat) (X Y : list nat) : id_result :=
